@@ -7,6 +7,7 @@ import (
 	"go/types"
 	"regexp"
 	"sort"
+	"strings"
 
 	"golang.org/x/tools/go/packages"
 
@@ -34,9 +35,25 @@ func init() {
 			{Name: "func-doc-before-line", File: f, Old: "\t\tdoc := &goast.CommentGroup{}\n\t\tdoc.List = append(doc.List, &goast.Comment{Text: line})\n\t\tif decl.Doc != nil {\n\t\t\tdoc.List = append(doc.List, decl.Doc.List...)\n\t\t}", New: "\t\tdoc := &goast.CommentGroup{}\n\t\tif decl.Doc != nil {\n\t\t\tdoc.List = append(doc.List, decl.Doc.List...)\n\t\t}\n\t\tdoc.List = append(doc.List, &goast.Comment{Text: line})", Expect: "line-first/commentFunc"},
 			{Name: "func-comment-only-with-body", File: "cl/compile.go", Old: "\tcommentFunc(ctx, fn, d)\n\tif rec := ctx.recorder(); rec != nil {", New: "\tif d.Recv == nil {\n\t\tcommentFunc(ctx, fn, d)\n\t}\n\tif rec := ctx.recorder(); rec != nil {", Expect: "func-pass-through/loadFunc"},
 			{Name: "foreign-comments-installed", File: f, Old: "func compileReturnStmt(ctx *blockCtx, expr *ast.ReturnStmt) {\n", New: "func compileReturnStmt(ctx *blockCtx, expr *ast.ReturnStmt) {\n\tctx.cb.SetComments(&goast.CommentGroup{List: []*goast.Comment{{Text: \"// return\"}}}, true)\n", Expect: "comments-census/compileReturnStmt"},
+			{Name: "elseif-bypasses-compileStmt", File: f, Old: "\t\tif stmts, ok := e.(*ast.BlockStmt); ok {\n\t\t\tcompileStmts(ctx, stmts.List)\n\t\t} else {\n\t\t\tcompileStmt(ctx, e)\n\t\t}", New: "\t\tif stmts, ok := e.(*ast.BlockStmt); ok {\n\t\t\tcompileStmts(ctx, stmts.List)\n\t\t} else if ei, ok := e.(*ast.IfStmt); ok {\n\t\t\tcompileIfStmt(ctx, ei)\n\t\t} else {\n\t\t\tcompileStmt(ctx, e)\n\t\t}", Expect: "stmt-route/compileIfStmt→compileIfStmt"},
+			{Name: "funclit-no-restore", File: "cl/expr.go", Old: "\t\tloadFuncBody(ctx, fn, body, nil, v)\n\t\tcb.SetComments(comments, once)\n", New: "\t\tloadFuncBody(ctx, fn, body, nil, v)\n\t\t_, _ = comments, once\n", Expect: "nested-restore/compileFuncLit"},
 			{Name: "fileline-guard-inverted", File: f, Old: "\tif ctx.fileLine {\n\t\tcommentStmtEx(ctx.cb, ctx.pkgCtx, stmt)\n\t}", New: "\tif ctx.fileLine && ctx.relBaseDir != \"\" {\n\t\tcommentStmtEx(ctx.cb, ctx.pkgCtx, stmt)\n\t}", Expect: "stmt-guard/commentStmt"},
 		},
 	})
+}
+
+// c09DirectCalls: statement lowering routines called from elsewhere than compileStmt, reviewed.
+var c09DirectCalls = map[string]string{
+	"compileRangeStmt→compileForStmt":     "`for k := range a:b` is rewritten into a for statement (toForStmt) that stands for the same source statement; compileStmt already installed that statement's directive",
+	"compileForPhraseStmt→compileForStmt": "`for x <- a:b` is rewritten into a for statement standing for the same source statement; its directive was installed by compileStmt",
+}
+
+// c09NoRestore: routines that lower a nested statement list and need not restore the pending directive.
+var c09NoRestore = map[string]string{
+	"compileStmt":  "the BlockStmt arm: the block is the whole statement, nothing of an enclosing statement is emitted after it in this routine",
+	"loadFuncBody": "the body of a function: there is no enclosing statement (closures save/restore in compileFuncLit / compileLambdaExpr2 around this call)",
+	"compileStmts": "the list walker itself",
+	"loadFunc":     "a top-level function or method body: no enclosing statement",
 }
 
 var c09LineFormat = regexp.MustCompile(`^\n?//line %s:%d(:1)?$`)
@@ -212,6 +229,124 @@ func runC09(c *core.Check) {
 			c.Decide(created && !bad.IsValid(), "func-pass-through", "loadFunc", loadFunc.Pos(), "every path on which NewFuncWith succeeded calls commentFunc(ctx, fn, d)",
 				"a path through loadFunc creates the function and returns without commentFunc(ctx, fn, d): that function's declaration (and the panics/stack frames of its entry) is attributed to the generated file instead of its XGo line")
 		}
+	}
+	// ---------- (1d) statements reach their lowering routine only through compileStmt (which installs the directive)
+	{
+		stmtIface := ifaceOf(prog.Lookup("./ast", "Stmt").Type())
+		compileStmtObj := obj(compileStmt)
+		nSites := 0
+		for _, fd := range core.AllFuncDecls(pk) {
+			if fd.Body == nil || info.Defs[fd.Name] == compileStmtObj {
+				continue
+			}
+			ast.Inspect(fd.Body, func(n ast.Node) bool {
+				call, ok := n.(*ast.CallExpr)
+				if !ok {
+					return true
+				}
+				fn, ok := calleeObj(info, call).(*types.Func)
+				if !ok || fn.Pkg() != pk.Types || !strings.HasPrefix(fn.Name(), "compile") || !strings.HasSuffix(fn.Name(), "Stmt") || fn.Name() == "compileStmt" {
+					return true
+				}
+				// the callee lowers one statement node: a parameter whose type is a pointer to an ast.Stmt implementation
+				sig := fn.Type().(*types.Signature)
+				takesStmt := false
+				for i := 0; i < sig.Params().Len(); i++ {
+					if pt, ok := sig.Params().At(i).Type().(*types.Pointer); ok && stmtIface != nil && types.Implements(pt, stmtIface) {
+						takesStmt = true
+					}
+				}
+				if !takesStmt {
+					return true
+				}
+				nSites++
+				key := core.FuncName(fd) + "→" + fn.Name()
+				if why, ok := c09DirectCalls[key]; ok {
+					c.Note("stmt-route-reviewed", key, call.Pos(), why)
+					return true
+				}
+				c.Bad("stmt-route", key, call.Pos(), "cl."+core.FuncName(fd)+" hands a statement to cl."+fn.Name()+" directly instead of through compileStmt: that statement gets no //line directive of its own (it runs under the directive of whatever was compiled before it)")
+				return true
+			})
+		}
+		c.Ok("stmt-route", "census", 0, core.Sprintf("%d direct calls of statement lowering routines outside compileStmt, all reviewed", nSites))
+	}
+	// ---------- (1e) routines that lower a nested statement list save the pending directive and restore it afterwards
+	{
+		compileStmts := pk.Types.Scope().Lookup("compileStmts")
+		loadFuncBody := pk.Types.Scope().Lookup("loadFuncBody")
+		for _, fd := range core.AllFuncDecls(pk) {
+			if fd.Body == nil {
+				continue
+			}
+			name := core.FuncName(fd)
+			nested := false
+			ast.Inspect(fd.Body, func(n ast.Node) bool {
+				if _, isLit := n.(*ast.FuncLit); isLit {
+					return false
+				}
+				if call, ok := n.(*ast.CallExpr); ok {
+					if o := calleeObj(info, call); o != nil && (o == compileStmts || o == loadFuncBody) {
+						nested = true
+					}
+				}
+				return true
+			})
+			if !nested {
+				continue
+			}
+			if why, ok := c09NoRestore[name]; ok {
+				c.Note("nested-restore-exempt", name, fd.Pos(), why)
+				continue
+			}
+			// BackupComments before the nested list, SetComments(saved…) after it, on every path that compiles the list
+			const (
+				bSaved flow.State = 1 << iota
+				bNested
+				bNestedUnsaved
+				bRestored
+			)
+			var savedVar types.Object
+			ast.Inspect(fd.Body, func(n ast.Node) bool {
+				if as, ok := n.(*ast.AssignStmt); ok && len(as.Rhs) == 1 && len(as.Lhs) == 2 {
+					if call, ok := as.Rhs[0].(*ast.CallExpr); ok {
+						if fn, ok := calleeObj(info, call).(*types.Func); ok && fn.Name() == "BackupComments" {
+							savedVar = identObj(info, as.Lhs[0])
+						}
+					}
+				}
+				return true
+			})
+			p := &flow.Problem{Body: fd.Body, Info: info}
+			p.Node = func(n ast.Node, st flow.State, record bool) flow.State {
+				for _, call := range flow.Calls(n) {
+					o := calleeObj(info, call)
+					fn, _ := o.(*types.Func)
+					switch {
+					case fn != nil && fn.Name() == "BackupComments":
+						st |= bSaved
+					case o != nil && (o == compileStmts || o == loadFuncBody):
+						st |= bNested
+						st &^= bRestored
+						if st&bSaved == 0 {
+							st |= bNestedUnsaved
+						}
+					case fn != nil && fn.Name() == "SetComments" && len(call.Args) == 2 && savedVar != nil && identObj(info, call.Args[0]) == savedVar:
+						st |= bRestored
+					}
+				}
+				return st
+			}
+			res := flow.Solve(p)
+			ok := len(res.Exits) > 0
+			for _, e := range res.Exits {
+				if e.State&bNested != 0 && (e.State&bNestedUnsaved != 0 || e.State&bRestored == 0) {
+					ok = false
+				}
+			}
+			c.Decide(ok, "nested-restore", name, fd.Pos(), "saves the pending comment group before the nested statements and restores it afterwards on every path", "cl."+name+" lowers a nested statement list without saving the pending //line directive first and restoring it afterwards (BackupComments … SetComments): the inner statements' directives replace the one of the enclosing statement, whose remaining code is then attributed to the last inner line")
+		}
+		c.Floor("nested-restore", 8)
 	}
 	// ---------- (2) origin of the directive text
 	c09Origin(c, pk, commentStmtEx, "commentStmtEx", paramObj(commentStmtEx, info, 2), obj(checkStmtDoc), "")
